@@ -199,6 +199,10 @@ def evidence(pid, mod, tier, base_seed, total, n_viol, extra=None):
         "workers": total["workers"],
         "exhaustive": False,
     }
+    if "evaluations_override" in total["stats"]:
+        cov["scenarios"] = total["n"]
+        cov["evaluations"] = int(total["stats"]["evaluations_override"])
+        cov["counters"].pop("evaluations_override", None)
     if extra:
         cov.update(extra)
     ev = {
